@@ -132,3 +132,29 @@ def returns_of(func: Func) -> List[ast.Return]:
 def norm_stmt(node: ast.AST) -> str:
     """Normalised statement text (stable under reformatting)."""
     return " ".join(unparse(node).split())
+
+
+def _is_log_call(n: ast.AST) -> bool:
+    return isinstance(n, ast.Call) and (unparse(n.func).split(".")[0] in ("logger", "logging", "log", "warnings") or unparse(n.func) == "print")
+
+
+def _only_logging(stmts) -> bool:
+    return all(isinstance(x, ast.Pass) or (isinstance(x, ast.Expr) and _is_log_call(x.value)) for x in stmts)
+
+
+def influences_result(a: ast.AST) -> bool:
+    """False when the attribute read can only influence log output."""
+    cur, par = a, getattr(a, "_parent", None)
+    while par is not None and not isinstance(par, (ast.FunctionDef, ast.AsyncFunctionDef)):
+        if _is_log_call(par):
+            return False
+        if isinstance(par, ast.If) and (cur is par.test or any(cur is x for x in ast.walk(par.test))):
+            if _only_logging(par.body) and _only_logging(par.orelse):
+                return False
+            return True
+        if isinstance(par, ast.stmt):
+            return True
+        cur, par = par, getattr(par, "_parent", None)
+    return True
+
+
